@@ -69,6 +69,9 @@ def cases_from_dump(path):
     return [c for p in parts for c in p]
 
 
+_TIMEOUTS = 0
+
+
 def run_case(n, adj, root, rng, agree, draws, sigma_scale):
     """adj: 1-based neighbour lists in table order -> events"""
     from gaddlemaps import move_mol_atom, find_atom_random_displ
@@ -88,7 +91,15 @@ def run_case(n, adj, root, rng, agree, draws, sigma_scale):
     # a null displacement is a legitimate displacement: the bonds must still be restored to the table
     displ = rng.normal(size=3) * rng.choice([0.0, 1e-6, 0.05, 0.5], p=[0.1, 0.2, 0.4, 0.3])
     keep = pos.copy()
-    out = move_mol_atom(pos, table, atom_index=root - 1, displ=displ.copy(), sigma_scale=sigma_scale)
+    global _TIMEOUTS
+    if _TIMEOUTS >= 2:
+        raise common.CaseTimeout('traversal did not terminate in earlier cases of this worker; remaining cases not run')
+    try:
+        with common.time_limit(10):          # the traversal must terminate (it visits every atom once)
+            out = move_mol_atom(pos, table, atom_index=root - 1, displ=displ.copy(), sigma_scale=sigma_scale)
+    except common.CaseTimeout:
+        _TIMEOUTS += 1
+        raise
     look = list(table.lookups)
     ev.append({'op': 'Displace', 'exact_vector': bool(np.array_equal(out[root - 1], keep[root - 1] + displ)),
                'input_intact': bool(np.array_equal(pos, keep))})
